@@ -42,6 +42,9 @@ def curated():
         SC(cAny(cXor(x(), y(), z(), id="X", default=["z"]), V("w"), id="A")),
         SC(N("Any", cXor(x(), y(), id="X", default=["x"]), N("All", a(), b(), id="B"), id="A"), N("Imply", c(), cAny(d(), e(), id="D", default=["e"]), id="R")),
         SC(N("All", N("Any", cAny(a(), b(), c(), id="K", default=["b"]), d(), id="B"), id="A")),
+        # a rule directly inside a rule of the same class, inner id generated (the inner rule has a support variable of its own)
+        SC(N("All", N("All", a(), b()), c(), id="R"), cXor(x(), y(), id="X", default=["x"])),
+        SC(N("Any", N("Any", a(), b()), N("All", c(), d()), id="R"), cAny(e(), f(), id="E", default=["f"])),
         # default lists with several entries, not in id order (the first entry is the effective default)
         SC(cAny(a(), b(), c(), id="A", default=["c", "a"])),
         SC(N("Imply", a(), cXor(x(), y(), z(), id="X", default=["z", "x"]), id="R"), cAny(b(), c(), id="B", default=["c", "b"])),
